@@ -26,4 +26,13 @@ PROPS = {
         ],
         assumptions=["font size compared when the CTM's vertical scale is rational (perfect square), else both sides report -1"],
     ),
+    "C13": dict(
+        gen=[],
+        trusted=[
+            "characters are bytes in this code (len(text)); TokensPerChar is modelled as a rational p/q and the correspondence uses dyadic ratios (1/4, 1/2, 1/8, 1) for which the float64 products are exact",
+            "modelled byte-exactly: SizeCalculator.SplitToSize with nil boundaries, FindSplitPointAt, findSentenceEndNear, findWordBoundaryNear (with the rune-boundary fallback), the pull-back to a hard character/token maximum, strings.TrimSpace over the 25 Unicode White_Space code points; termination/conservation/UTF-8 theorems quantify over every size predicate, hence cover the word/sentence/paragraph units whose counters are not modelled",
+            "overlap (GenerateOverlap, ApplyOverlapToChunks) is NOT modelled: it is decided by the property predicates evaluated on the implementation in the harness (suffix of the previous chunk's own text, valid UTF-8, Min/Max bounds) - partial for that clause",
+        ],
+        assumptions=["semantic boundaries passed by callers (non-nil boundaries argument) are outside the model"],
+    ),
 }
